@@ -129,7 +129,9 @@ func getScanBuffer(size int) []byte {
 		return make([]byte, size)
 	}
 	if v := scanBufferPools[shift-scanBufferMinShift].Get(); v != nil {
-		return v.([]byte)[:size]
+		buf := v.([]byte)
+		verifScanBufferTaken(buf)
+		return buf[:size]
 	}
 	return make([]byte, size, 1<<shift)
 }
